@@ -180,12 +180,16 @@ def lm_numeric(env, fail):
                 env.holds('back edge (rejected trial): 0 <= reject_count <= reject', 0 <= o.reject_count <= reject)
             if fail_at == trial[0]: raise RuntimeError('scripted failure')
             x = torch.linalg.solve(A, b)
+            if trial[0] <= k_bad and holder.get('slightly'):
+                # a trial that is worse by a HAIR (overshoot to the mirror point and 1e-6 beyond: the loss rises by ~4e-6 relative) is a worse
+                # loss all the same and is rejected while rejections remain
+                return x * (2 + 2e-6) * (1 + 1e-3)
             return -5 * x if trial[0] <= k_bad else x
     # the reported loss is the ROBUST loss: half of the runs use a non-trivial kernel (residuals beyond its threshold included)
     kern = rng.choice([None, None, pp.optim.kernel.Huber(delta=rng.uniform(0.1, 1.0)), pp.optim.kernel.Cauchy(delta=rng.uniform(0.2, 2.0))])
     opt = LevenbergMarquardt(m, solver=Solver(), reject=reject, strategy=pp.optim.strategy.Constant(1e-3), kernel=kern)
     p0 = m.p.detach().clone(); l0 = float(opt.model.loss(None, None))
-    holder.update(opt=opt, p0=p0, l0=l0)
+    holder.update(opt=opt, p0=p0, l0=l0, slightly=(kern is None and rng.random() < 0.4 and abs(float(m.p) * 3.0 - 1.0) > 0.1))
     ret = opt.step(None)
     lnow = float(opt.model.loss(None, None))
     env.eq('exit: reported loss is the robust loss at the parameters left behind', float(ret), lnow)
